@@ -160,6 +160,7 @@ type Machine struct {
 	writes       []writeRec
 	writeLogOn   bool
 	watchGlobals bool
+	fmtSymBytes  []*sym.Term
 	changedWhere []string
 
 	writeHook func(c *Cell, old, new Value)
